@@ -102,3 +102,26 @@ def effect_free(ctx, rule, qualnames, what):
         if not s.effects:
             ctx.holds(rule, f.loc, f.qualname, f'effect-free ({len(eng.reachable(f))} reachable functions): {what}')
     return eng
+
+
+def on_path(ctx, qualnames):
+    """ids of the function nodes that take part in the given entry points: reachable through resolved calls, plus extracted
+    helpers whose calls were replaced by their bodies (glue).  Rules of the form "nothing else writes X" judge only these: a
+    new, unrelated function of the same class is not part of the behaviour a property talks about."""
+    from ..effects import Effects
+    key = ('on_path', tuple(qualnames))
+    cache = getattr(ctx, '_on_path', None)
+    if cache is None:
+        cache = ctx._on_path = {}
+    if key not in cache:
+        eng = Effects(ctx.prog)
+        fs = [ctx.prog.func(q) for q in qualnames]
+        eng.analyse(fs)
+        ids = set()
+        for f in fs:
+            ids |= {id(g.node) for g in eng.reachable(f)}
+        for g in ctx.prog.all_functions():
+            if ctx.prog.is_glue(g):
+                ids.add(id(g.node))
+        cache[key] = ids
+    return cache[key]
